@@ -70,6 +70,7 @@ pub struct Rw<'a> {
     pub splices: Vec<String>,
     loop_ctr: usize,
     closure_ctr: usize,
+    collect_ctr: usize,
     stats: &'a mut BTreeMap<String, usize>,
     used_loops: BTreeSet<usize>,
     used_closures: BTreeSet<usize>,
@@ -608,6 +609,7 @@ impl<'a> VisitMut for Rw<'a> {
                 }
                 visit_mut::visit_expr_mut(self, e);
                 // E3: iterator arguments are collected
+                let mut bound: Option<(Ident, Expr)> = None;
                 if let Expr::Call(c) = e {
                     if let Expr::Path(fp) = &*c.func {
                         if let Some(id) = fp.path.segments.last() {
@@ -623,13 +625,28 @@ impl<'a> VisitMut for Rw<'a> {
                                         if !is_plain {
                                             self.bump("E3.collect");
                                             let inner = a.clone();
-                                            *a = Expr::Verbatim(quote!( #inner .collect::<Vec<_>>() ));
+                                            if k == 0 {
+                                                // E13: the collected first argument is bound to a fresh
+                                                // local right before the call (same evaluation order)
+                                                let nm = Ident::new(&format!("__c{}", self.collect_ctr), Span::call_site());
+                                                self.collect_ctr += 1;
+                                                bound = Some((nm.clone(), inner));
+                                                *a = Expr::Verbatim(quote!( #nm ));
+                                            } else {
+                                                *a = Expr::Verbatim(quote!( #inner .collect::<Vec<_>>() ));
+                                            }
                                         }
                                     }
                                 }
                             }
                         }
                     }
+                }
+                if let Some((nm, inner)) = bound {
+                    self.bump("E13.bind_collected");
+                    let hs = self.hints_at(&format!("after-let {}", nm));
+                    let call = e.clone();
+                    *e = Expr::Verbatim(quote!( { let #nm = #inner .collect::<Vec<_>>(); #(#hs)* #call } ));
                 }
             }
             Expr::Binary(b) => {
@@ -1059,7 +1076,7 @@ pub fn emit_fn(idx: &Index, fs: &FnSpec, tags: &[String], debug_view: bool, star
         Owner::Inherent(n) => (None, Some(n.clone()), None, sig.ident.to_string()),
         Owner::TraitImpl(_key, n, t) => {
             let st = src.impl_header.as_ref().map(|h| h.2.clone()).unwrap_or_else(|| n.clone());
-            if t == "From" || t == "TryFrom" {
+            if (t == "From" || t == "TryFrom") && !fs.as_free {
                 // kept as a real trait impl (Self stays valid)
                 (None, Some(n.clone()), None, sig.ident.to_string())
             } else {
@@ -1068,7 +1085,7 @@ pub fn emit_fn(idx: &Index, fs: &FnSpec, tags: &[String], debug_view: bool, star
         }
     };
     let conv_impl: Option<String> = match &src.owner {
-        Owner::TraitImpl(_, _, t) if t == "From" || t == "TryFrom" => Some(t.clone()),
+        Owner::TraitImpl(_, _, t) if (t == "From" || t == "TryFrom") && !fs.as_free => Some(t.clone()),
         _ => None,
     };
     let mut byte_generics = byte_generics_of(&sig.generics, false);
@@ -1101,6 +1118,7 @@ pub fn emit_fn(idx: &Index, fs: &FnSpec, tags: &[String], debug_view: bool, star
         splices: vec![],
         loop_ctr: 0,
         closure_ctr: 0,
+        collect_ctr: 0,
         stats,
         used_loops: BTreeSet::new(),
         used_closures: BTreeSet::new(),
@@ -1383,6 +1401,7 @@ pub fn emit_type(idx: &Index, ts: &TypeSpec, stats: &mut BTreeMap<String, usize>
         splices: vec![],
         loop_ctr: 0,
         closure_ctr: 0,
+        collect_ctr: 0,
         stats,
         used_loops: BTreeSet::new(),
         used_closures: BTreeSet::new(),
